@@ -5,52 +5,82 @@ shows that file with at least the flushed length and exactly the flushed content
 modified, truncated or deleted."
 
 Property theorems only; proofs in `Sdmmc.Lemmas.Survive*` (`SurviveFrame`: crash points, prefix-closed licences, the
-frame at every crash point; `SurviveFile`: first hit under the invariant, mounting across the frame; `SurviveRead`:
-the fresh reader, the flushed file at crash points and boundaries; `SurviveClose`: what flush / close establish, the
-independent reader; `SurviveMain`: assembly) on top of `Props/C04Hist.lean` (`VolInvM`, `LicenceFor`, `RunLicensed`,
-`NotNamed`, `Covers`), `Props/C03Inv.lean` (`VolInv`, `CoveredAllRun`) and `Props/C02Reopen.lean` (the reader).
+frame at every crash point; `SurviveFile`: first hit from clean tail + distinct names, mounting across the frame;
+`SurviveRead`: the fresh reader; `SurviveClose`: what flush / close leave on the medium, the independent reader;
+`SurviveMain`; `SurviveAbs`: the file slot in the abstract file system of `Props/C01Fs`; `SurviveNamed`, `SurviveNamed2`:
+every licence of a call that does not target the file is `NotNamed` for it; `SurviveTrack`, `SurviveTrack2`,
+`SurviveStep`: one call; `SurviveRoot`: the root directory of a crashed medium and the reader; `SurviveFinal`: crash
+points, histories, the syntactic criteria; `SurviveEstablish`: `close_file` establishes the invariant) on top of
+`Props/C04Hist.lean` (`VolInvM`, `LicenceFor`, `RunLicensed`, `NotNamed`, `Covers`), `Props/C03Inv.lean` (`VolInv`,
+`CoveredAllRun`), `Props/C10Inv.lean` (`VolInvC`, `CrashInv` at every crash point, mounting), `Props/C01Fs.lean` (the
+abstract file system) and `Props/C02Reopen.lean` (the reader).
 
 CRASH POINTS.  `HistCrash s ops dk` (`histCrash_iff`): `dk` is the medium of the state some call `ops[j]` of the
 history is issued in with the first `k` device writes of that call applied (`Spec.crashDisk`) — every medium a power
-cut during the history can leave.
+cut during the history can leave (`k = 0`: a call boundary; `k ≥` the number of writes: the boundary after the call).
+
+STATUS: PROVED for files of the ROOT directory, FAT16 and FAT32, after `close_file`, at EVERY crash point, with a
+syntactic criterion.  Residue (stated plainly below): sub-directory files get (a) but not (b), (c); the `flush_file`
+case keeps the semantic hypothesis.
 
 WHAT IS PROVED.
 1. `licensed_prefix_closed`, `step_crash_licensed`, `crash_frame`, `history_crash_frame`: the first `k` writes of a
-   call are licensed by the call's licence; a byte no licence covers is unchanged at every crash point of a call /
-   inside any call of a history.
-2. `unnamed_object_survives_crashes`: an object (slot, chain) no licence of the history names has its 32 slot bytes,
-   its FAT entries, its `Chain` and its `chainBytes` unchanged at EVERY crash point of the history.
-3. `flush_establishes`, `close_establishes`: a successful flush / close of a dirty file under the invariant leaves a
-   medium that shows the flushed file (`FlushedOn`: the slot holds the serialised record, the chain and contents are
-   as before the call); `flushed_entry_facts`: what the invariant says about the record.
-   **`flushed_file_survives_partial`** — the file flushed on the medium of a state `s1` (`VolInvM`), any covered history
-   `ops` from `s1` none of whose licences names the file (`NotNamed` for the file's slot and chain):
-   (a) at EVERY crash point `dk` of the history — inside any call, any directory, FAT16 and FAT32 —: 512-byte blocks,
-       the slot still holds the serialised entry and decodes (`Listing.decode`) to the flushed entry (name, attributes,
-       size, first cluster; time stamps at FAT resolution: `stored`), the chain is still `cs`, and
-       `fileContent v0 dk cs n` is what it was for every `n` — in particular for the flushed size;
-   (b), (c) at every CALL BOUNDARY (the state after the first `j` calls, every `j`), for a file of the FAT16 fixed ROOT
-       directory: the slot is the first hit for the file's name in the root directory, the medium mounts with the same
-       geometry, and ANY fresh manager on it mounts, opens the root directory, opens the file by any spelling of its
-       name and reads exactly the flushed contents, writing nothing.
-   MISSING for the full statement (hence `_partial`):
-   * (b), (c) at crash points STRICTLY INSIDE a call.  The licences say which slots a call may change but not what
-     it writes there; "first hit" needs, of every slot in front of the file's, a non-zero first byte and a different
-     name at the crash point.  At call boundaries the invariant gives that (unique names, clean tails).
-   * (b), (c) for files of FAT32 root directories and of sub-directories: the membership of the slot's block in the
-     directory's chain of the LATER ghost has to be tracked through the history (the directory may grow), which the
-     per-step theorems of `Props.C03Inv` do not export.
-   * a purely syntactic sufficient condition for `NotNamed` ("no `openFile` in a writing mode / `delete` of that name
-     in that directory"): `LicenceFor` does not record that a created slot was a free slot, nor that the clusters a
-     `write` adds were unused; both facts are true of the model but would have to be threaded through
-     `Lemmas.WriteSetCreate` / `WriteSetWrite` / `WriteSetInv` (existing files).  The hypothesis is therefore the
-     semantic one, on the licences (`history_untouched_objects'` of `Props/C04Hist.lean` gives its `LicenceFor` form).
-4. `spec_reader_survives`: at every crash point the independent reader `Spec.Fs` sees the flushed file: slot fields,
-   chain walk, file bytes.
+   call are licensed by the call's licence; a byte no licence covers is unchanged at every crash point.
+2. `unnamed_object_survives_crashes`: an object no licence of the history names is unchanged at EVERY crash point.
+3. `flush_establishes`, `close_establishes`, `flushed_entry_facts`; `flushed_file_survives_partial` (kept: the version
+   with the SEMANTIC hypothesis "no licence names the file"; (b), (c) only at call boundaries of FAT16 root files).
+4. `spec_reader_survives` (semantic hypothesis), `spec_reader_survives_syntactic` (criterion below).
+5. THE FULL STATEMENT.
+   * `Kept v0 e cs h s gh` (`kept_def`): `s` satisfies the invariant (FAT copies identical), its medium shows the flushed
+     entry `e` with chain `cs`, the slot is a file object of directory `h`, and no open file at the slot has unflushed
+     changes.  `close_establishes_kept`: a successful `close_file` of a handle that was written to leaves such a state,
+     with no handle at the slot.
+   * The criterion.  `Targets s h N pos op` (`targets_def`): `op` is `open_file_in_dir` of (a spelling of) the name `N`
+     through a handle of directory `h` in a TRUNCATING mode, or `delete_file_in_dir` of it, or `write` through a handle
+     (not a read-only one) of an open file at the slot.  `Untouched` (`untouched_def`): no call of the history targets
+     the file in the state it is issued in — this is "until the file itself is next modified, truncated or deleted".
+     Opening the file `ReadOnly` — or even for appending, as long as nothing is written —, reading it, and everything
+     that happens to other files, directories and the volume is allowed.
+     `untouched_of_never_opened`: if only read-only handles sit at the slot (none after a close) it suffices that no
+     call opens the name in that directory in a mode other than `ReadOnly` or deletes it (`NeverOpened`);
+     `never_opened_of_never_names`: for which it suffices that the LIST OF CALLS contains no `open_file_in_dir` in a
+     mode other than `ReadOnly` and no `delete_file_in_dir` of any spelling of the name (`NeverNames`, purely syntactic).
+   * `notNamed_of_syntactic` (every directory, FAT16/FAT32): from `Kept`, along a covered `Untouched` history, EVERY
+     licence of the history is `NotNamed` for the file.  (Needed for it, and added to `LicenceFor` in
+     `Lemmas/WriteSetInv.lean`: a created entry takes a FREE slot, the clusters a `write` appends were in no chain,
+     `delete` / truncate name a CLOSED object, `flush` / `close` write only when the handle was written to, `write`
+     writes only through a handle that is not read-only, the cluster a full directory grows by is free.)
+   * `flushed_file_intact` — (a) at EVERY crash point for a file of ANY directory (root or sub-directory).
+   * **`flushed_file_survives`** — root-directory files, FAT16 and FAT32, EVERY crash point: (a), (b) first hit in the
+     root directory of the crashed medium (on FAT32 the root chain of the crashed medium continues the one before),
+     (c) the crashed medium mounts and ANY fresh manager mounts, opens the root directory, opens the file by any
+     spelling of its name and reads exactly the flushed contents, length included.  Uses `Props.C10Inv`: every crash
+     point is crash-consistent (`CrashInv`: clean tails and distinct names of the root directory of the crashed medium)
+     and mounts.
+   * **`closed_file_survives`** — the same from the `close_file` call itself with the purely syntactic `NeverNames`.
+   HYPOTHESES, all explicit: `VolInvC` at the start (invariant of API histories, identical FAT copies, `RawOK` —
+   `Props.C10Inv`); covered history (`CoveredAllRun`: by `Props/C03All` only the `open_volume` clause is a
+   restriction); the medium mounts at the start; the entry is `Storable` (provided by `flushed_entry_facts`);
+   `ProperEnds` only for the independent reader on FAT32 (as in `Props/C02Reopen`).
+
+WHAT IS NOT PROVED (residue).
+* (b), (c) for files of SUB-DIRECTORIES: (a) holds for them at every crash point (`flushed_file_intact`), and the
+  machinery of one call (`Lemmas.Survive.kept_step`) is directory-generic, but "first hit" and the reader at crash points
+  strictly inside a call need the sub-directory to be a directory of the crashed medium's ghost (`CrashInv` is stated
+  with `∃ gh'`, and says nothing of which sub-directories it has) and the path from the root to be walked with
+  `open_dir`; neither is done.
+* The `flush_file` case with the handle left open: the crate never clears `dirty` (a handle that was written to stays
+  dirty after `flush_file`), so a later `flush_file` / `close_file` of the same handle stores the entry AGAIN.  The bytes
+  are the same if nothing was written in between, but the licences say only which slot a call may change, not what it
+  writes there; `Kept` therefore asks for a clean (or no) handle at the slot, which a successful `close_file` provides and
+  `flush_file` does not.  For `flush_file` the semantic form `flushed_file_survives_partial` remains.
 -/
-import Sdmmc.Lemmas.SurviveMain
+import Sdmmc.Lemmas.SurviveEstablish
 import Sdmmc.Props.C04Hist
 import Sdmmc.Props.C02Reopen
+import Sdmmc.Props.C10Inv
+import Sdmmc.Props.C01Fs
+import Sdmmc.Props.C03All
 
 namespace Sdmmc.Props.C09Hist
 open Sdmmc.Model Sdmmc.Model.Fat Sdmmc.Spec.Volume
@@ -58,8 +88,9 @@ open Sdmmc.Spec hiding run step NoFault Coherent
 open Sdmmc.Props.C03Inv (Covered CoveredAll CoveredAllRun)
 open Sdmmc.Props.C04Hist (VolInvM)
 open Sdmmc.Lemmas.WriteSetInv (LicenceFor RunLicensed Covers NotNamed)
-open Sdmmc.Lemmas.Survive (HistCrash FlushedOn)
+open Sdmmc.Lemmas.Survive (HistCrash FlushedOn Kept Obj Targets Untouched Modifies NeverOpened NeverNames slotOf)
 open Sdmmc.Lemmas.ReadRefines (MgrOK)
+open Sdmmc.Lemmas.VolTree (fkey spos)
 
 /-! ### Crash points -/
 
@@ -254,6 +285,305 @@ theorem spec_reader_survives (v0 : FatVolume) (s1 : Mgr) (gh1 : Ghost) (hI : Vol
   rw [hfc] at this
   exact this
 
+
+/-! ### 5. The syntactic criterion and the full statement -/
+
+/-- `Kept v0 e cs h s gh`: the state `s` (invariant with ghost `gh`, FAT copies identical, geometry of `v0`) shows the
+flushed file — its slot holds the serialised entry `e`, `cs` is its chain —, the slot (`slotOf`: position and 32-byte
+image) is a file object of directory number `h` (`0` = root), and no open file that sits at it has unflushed
+changes. -/
+theorem kept_def (v0 : FatVolume) (e : DirEntry) (cs : List Nat) (h : Nat) (s : Mgr) (gh : Ghost) :
+    Kept v0 e cs h s gh ↔
+      VolInv s gh ∧ Mirror gh.vol s.dev.disk ∧ SameGeom v0 gh.vol ∧ FlushedOn v0 s.dev.disk e cs ∧
+      h ∈ dirIds gh.dirs ∧
+      ((e.entryBlock, e.entryOffset, e.serialize v0.fatType) : Slot) ∈ objects h (dirSlots gh.vol s.dev.disk gh.G h) ∧
+      isDirE (e.entryBlock, e.entryOffset, e.serialize v0.fatType) = false ∧
+      ∀ f, f ∈ s.files → (f.entry.entryBlock, f.entry.entryOffset) = (e.entryBlock, e.entryOffset) → f.dirty = false :=
+  ⟨fun hK => ⟨hK.inv, hK.mirror, hK.geom, hK.flushed, hK.obj.dir, hK.obj.mem, hK.obj.file, hK.obj.quiet⟩,
+   fun ⟨a, b, c, d, e1, e2, e3, e4⟩ => ⟨a, b, c, d, ⟨e1, e2, e3, e4⟩⟩⟩
+
+/-- `Targets s h N pos op`: the call `op`, issued in state `s`, targets the file named `N` of directory `h` whose slot
+sits at `pos`: `open_file_in_dir` of a spelling of `N` through a handle of directory `h` in a TRUNCATING mode,
+`delete_file_in_dir` of it, or `write` through a handle (not a read-only one) of an open file that sits at `pos`. -/
+theorem targets_def (s : Mgr) (h : Nat) (N : Bytes) (pos : Nat × Nat) :
+    (∀ dh name mode, Targets s h N pos (.openFile dh name mode) ↔
+      (mode = .ReadWriteTruncate ∨ mode = .ReadWriteCreateOrTruncate) ∧ Sfn.createFromStr name = .ok N ∧
+        ∃ dir, dir ∈ s.dirs ∧ dir.rawDirectory = dh ∧ dirIdOf dir.cluster = h) ∧
+    (∀ dh name, Targets s h N pos (.delete dh name) ↔
+      Sfn.createFromStr name = .ok N ∧ ∃ dir, dir ∈ s.dirs ∧ dir.rawDirectory = dh ∧ dirIdOf dir.cluster = h) ∧
+    (∀ hd data, Targets s h N pos (.write hd data) ↔
+      ∃ f, f ∈ s.files ∧ f.rawFile = hd ∧ (f.entry.entryBlock, f.entry.entryOffset) = pos ∧ f.mode ≠ .ReadOnly) ∧
+    (∀ op, (∀ dh name mode, op ≠ .openFile dh name mode) → (∀ dh name, op ≠ .delete dh name) →
+      (∀ hd data, op ≠ .write hd data) → ¬ Targets s h N pos op) := by
+  refine ⟨fun _ _ _ => Iff.rfl, fun _ _ => Iff.rfl, fun _ _ => Iff.rfl, ?_⟩
+  intro op h1 h2 h3 ht
+  cases op with
+  | openFile d n m => exact h1 d n m rfl
+  | delete d n => exact h2 d n rfl
+  | write hd data => exact h3 hd data rfl
+  | _ => exact ht
+
+/-- `Untouched h N pos s ops`: no call of the history targets the file in the state it is issued in. -/
+theorem untouched_def (h : Nat) (N : Bytes) (pos : Nat × Nat) (s : Mgr) :
+    (Untouched h N pos s [] ↔ True) ∧
+    ∀ op ops, Untouched h N pos s (op :: ops) ↔ ¬ Targets s h N pos op ∧ Untouched h N pos (step s op).1 ops :=
+  ⟨Iff.rfl, fun _ _ => Iff.rfl⟩
+
+theorem fsCoveredRun_of_coveredAllRun (v0 : FatVolume) : ∀ (s : Mgr) (ops : List Op), CoveredAllRun v0 s ops →
+    Lemmas.AbsFs.FsCoveredRun v0 s ops
+  | _, [], _ => trivial
+  | s, op :: ops, h => ⟨C01Fs.fsCovered_of_coveredAll v0 h.1 (fun _ name _ => C03All.name_ok_all name),
+      fsCoveredRun_of_coveredAllRun v0 _ ops h.2⟩
+
+/-- **`close_establishes_kept`**: under the invariant (FAT copies identical), `close_file` of a handle that was
+written to answers `Ok`, and the state it leaves shows the flushed file (`Kept`) as an object of the directory `h` the
+file sat in — entry `f.entry`, chain `chainOf gh.G f.entry.cluster` —, with NO handle left at its slot. -/
+theorem close_establishes_kept (v0 : FatVolume) (s : Mgr) (gh : Ghost) (hI : VolInvM s gh) (h0 : SameGeom v0 gh.vol)
+    (hd i : Nat) (f : FileInfo) (hidx : s.files.findIdx? (·.rawFile = hd) = some i) (hf : s.files[i]? = some f)
+    (hdirty : f.dirty = true) :
+    (step s (.closeFile hd)).2.result = .ok .unit ∧
+    ∃ h gh1, (∃ o, o ∈ objects h (dirSlots gh.vol s.dev.disk gh.G h) ∧ spos o = fkey f) ∧ h ∈ dirIds gh.dirs ∧
+      Kept v0 f.entry (chainOf gh.G f.entry.cluster) h (step s (.closeFile hd)).1 gh1 ∧
+      ∀ g, g ∈ (step s (.closeFile hd)).1.files → fkey g ≠ fkey f :=
+  Lemmas.Survive.close_kept hI.1 hI.2 h0 hidx hf hdirty
+
+/-- **`notNamed_of_syntactic`** (every directory, FAT16 and FAT32): from a `Kept` state, the licences of a covered
+history that never targets the file (`Untouched`) are ALL `NotNamed` for the file — creates take free slots, writes go
+to other files' chains and to unused clusters, deletes and truncations name other objects, flushes and closes store
+other files' entries, directories grow by free clusters. -/
+theorem notNamed_of_syntactic (v0 : FatVolume) (e : DirEntry) (cs : List Nat) (h : Nat) (s : Mgr) (gh : Ghost)
+    (hK : Kept v0 e cs h s gh) (hst : Lemmas.Reopen.Storable v0.fatType e) (ops : List Op) (hc : CoveredAllRun v0 s ops)
+    (hu : Untouched h e.name (e.entryBlock, e.entryOffset) s ops) :
+    ∃ Ls, RunLicensed v0 s ops Ls ∧ ∀ L, L ∈ Ls → NotNamed v0 L e.entryBlock e.entryOffset cs :=
+  Lemmas.Survive.kept_runLicensed hst ops s gh hK (fsCoveredRun_of_coveredAllRun v0 s ops hc) hu
+
+/-- If only read-only handles refer to the file (for instance none: it is closed), a history none of whose calls opens
+the file in a mode other than `ReadOnly` or deletes it (`NeverOpened`: the name, through a handle of the file's
+directory) never targets it. -/
+theorem untouched_of_never_opened (v0 : FatVolume) (e : DirEntry) (cs : List Nat) (h : Nat) (s : Mgr) (gh : Ghost)
+    (hK : Kept v0 e cs h s gh) (hst : Lemmas.Reopen.Storable v0.fatType e) (ops : List Op) (hc : CoveredAllRun v0 s ops)
+    (hro : ∀ f, f ∈ s.files → fkey f = (e.entryBlock, e.entryOffset) → f.mode = .ReadOnly)
+    (hn : NeverOpened h e.name s ops) : Untouched h e.name (e.entryBlock, e.entryOffset) s ops :=
+  Lemmas.Survive.untouched_of_neverOpened hst ops s gh hK (fsCoveredRun_of_coveredAllRun v0 s ops hc) hro hn
+
+/-- `NeverOpened`, spelled out. -/
+theorem neverOpened_def (h : Nat) (N : Bytes) (s : Mgr) :
+    (NeverOpened h N s [] ↔ True) ∧
+    (∀ op ops, NeverOpened h N s (op :: ops) ↔ ¬ Modifies s h N op ∧ NeverOpened h N (step s op).1 ops) ∧
+    (∀ dh name mode, Modifies s h N (.openFile dh name mode) ↔
+      mode ≠ .ReadOnly ∧ Sfn.createFromStr name = .ok N ∧ ∃ dir, dir ∈ s.dirs ∧ dir.rawDirectory = dh ∧ dirIdOf dir.cluster = h) ∧
+    (∀ dh name, Modifies s h N (.delete dh name) ↔
+      Sfn.createFromStr name = .ok N ∧ ∃ dir, dir ∈ s.dirs ∧ dir.rawDirectory = dh ∧ dirIdOf dir.cluster = h) :=
+  ⟨Iff.rfl, fun _ _ => Iff.rfl, fun _ _ _ => Iff.rfl, fun _ _ => Iff.rfl⟩
+
+/-- The PURELY SYNTACTIC condition — the list of calls contains no `open_file_in_dir` in a mode other than `ReadOnly`
+and no `delete_file_in_dir` of any spelling of the name (`NeverNames`) — implies `NeverOpened`, for every directory and
+from every state. -/
+theorem never_opened_of_never_names (h : Nat) (N : Bytes) (ops : List Op) (s : Mgr) (hn : NeverNames N ops) :
+    NeverOpened h N s ops :=
+  Lemmas.Survive.neverOpened_of_neverNames h N ops s hn
+
+theorem neverNames_def (N : Bytes) :
+    (NeverNames N [] ↔ True) ∧
+    (∀ d name mode ops, NeverNames N (.openFile d name mode :: ops) ↔
+      (mode = .ReadOnly ∨ Sfn.createFromStr name ≠ .ok N) ∧ NeverNames N ops) ∧
+    (∀ d name ops, NeverNames N (.delete d name :: ops) ↔ Sfn.createFromStr name ≠ .ok N ∧ NeverNames N ops) :=
+  ⟨Iff.rfl, fun _ _ _ _ => Iff.rfl, fun _ _ _ => Iff.rfl⟩
+
+/-- **`flushed_file_intact`** — part (a) for a file of ANY directory (root or sub-directory, FAT16 and FAT32): from a
+`Kept` state, along a covered history that never targets the file, at EVERY crash point `dk` — inside any call —: the
+blocks have 512 bytes, the slot still holds the serialised entry and decodes to the flushed entry, the chain is `cs`,
+the FAT entries of `cs` are unchanged, and the contents are unchanged for every length. -/
+theorem flushed_file_intact (v0 : FatVolume) (e : DirEntry) (cs : List Nat) (h : Nat) (s1 : Mgr) (gh1 : Ghost)
+    (hK : Kept v0 e cs h s1 gh1) (hst : Lemmas.Reopen.Storable v0.fatType e) (ops : List Op) (hc : CoveredAllRun v0 s1 ops)
+    (hu : Untouched h e.name (e.entryBlock, e.entryOffset) s1 ops) (dk : Disk) (hk : HistCrash s1 ops dk) :
+    BlocksOK dk ∧ slice (dk.get e.entryBlock) e.entryOffset 32 = e.serialize v0.fatType ∧
+    Lemmas.Listing.decode v0.fatType (e.entryBlock, e.entryOffset, slice (dk.get e.entryBlock) e.entryOffset 32) =
+      Lemmas.Reopen.stored e ∧
+    ((e.cluster < 2 ∧ cs = [] ∧ e.size = 0) ∨ Chain v0 dk e.cluster cs) ∧
+    (∀ x, x ∈ cs → fatRaw v0 dk x = fatRaw v0 s1.dev.disk x) ∧
+    ∀ n, fileContent v0 dk cs n = fileContent v0 s1.dev.disk cs n := by
+  obtain ⟨Ls, hR, hnn⟩ := notNamed_of_syntactic v0 e cs h s1 gh1 hK hst ops hc hu
+  obtain ⟨_, _, _, _, hreg, hal, _, hin⟩ := hK.facts hst
+  have hg : WFGeom v0 := hK.geom.symm.wfGeom hK.inv.med.geom
+  obtain ⟨hbk, hFk, hraw, hfc⟩ := Lemmas.Survive.flushed_at_crash hg hR hK.inv.med.blocksOK e cs hK.flushed hin hreg hal hnn dk hk
+  refine ⟨hbk, hFk.slot, ?_, hFk.chain, hraw, hfc⟩
+  rw [hFk.slot]
+  exact Lemmas.Reopen.decode_serialize v0.fatType e hst
+
+/-- **`flushed_file_survives`** — the full statement for a file of the ROOT directory, FAT16 and FAT32.
+
+`s1` satisfies the invariant of API histories with identical FAT copies and `RawOK` (`VolInvC`, `Props.C10Inv`); its
+medium shows the flushed file: entry `e` (storable), chain `cs` (`FlushedOn`); the file's slot is a file object of the
+root directory, and no open file at that slot has unflushed changes (after a successful `close_file` there is none:
+`close_establishes_kept`).  The medium of `s1` mounts as partition `idx` with the geometry of `v0`.  `ops` is ANY covered
+history from `s1` that never targets the file (`Untouched`: no `open_file_in_dir` of its name in the root directory in a
+truncating mode, no `delete_file_in_dir` of it, no `write` through a handle of it; see `untouched_of_never_opened` and
+`never_opened_of_never_names` for the syntactic forms).  Then at EVERY crash point `dk` of the history — the medium
+after any number of the block writes of any call —:
+
+(a) the blocks have 512 bytes, the slot holds the serialised entry, the chain is `cs`, and the contents are the flushed
+    contents for every length;
+(b) the slot is the FIRST HIT for the file's name in the root directory of `dk` (the fixed root region on FAT16; on
+    FAT32 the chain `rc` of the root cluster on `dk`, which continues the chain it had);
+(c) `dk` mounts as partition `idx`, and ANY fresh manager on `dk` mounts, opens the root directory, opens the file by
+    any spelling `name` of its stored name, is told the length `e.size`, and reads
+    `(fileContent v0 s1.dev.disk cs e.size).take n` — exactly the flushed contents — writing nothing. -/
+theorem flushed_file_survives (v0 : FatVolume) (s1 : Mgr) (gh1 : Ghost) (hI : VolInvC s1 gh1) (h0 : SameGeom v0 gh1.vol)
+    (ops : List Op) (hc : CoveredAllRun v0 s1 ops) (e : DirEntry) (cs : List Nat) (hF : FlushedOn v0 s1.dev.disk e cs)
+    (hst : Lemmas.Reopen.Storable v0.fatType e)
+    (hobj : slotOf v0.fatType e ∈ objects 0 (dirSlots gh1.vol s1.dev.disk gh1.G 0))
+    (hplain : Attr.isDirectory e.attributes = false)
+    (hq : ∀ f, f ∈ s1.files → fkey f = (e.entryBlock, e.entryOffset) → f.dirty = false)
+    (hu : Untouched 0 e.name (e.entryBlock, e.entryOffset) s1 ops)
+    (idx : Nat) (vm : FatVolume) (hm : mountPure (s1.dev.disk.get 0) idx s1.dev.disk.get = .ok vm) (hsg : SameGeom vm v0)
+    (dk : Disk) (hk : HistCrash s1 ops dk) :
+    (BlocksOK dk ∧ slice (dk.get e.entryBlock) e.entryOffset 32 = e.serialize v0.fatType ∧
+      ((e.cluster < 2 ∧ cs = [] ∧ e.size = 0) ∨ Chain v0 dk e.cluster cs) ∧
+      ∀ n, fileContent v0 dk cs n = fileContent v0 s1.dev.disk cs n) ∧
+    (∃ rc, (v0.fatType = .fat16 → rc = []) ∧ (v0.fatType = .fat32 → Chain v0 dk v0.firstRootDirCluster rc) ∧
+      Lemmas.Reopen.FirstHit (Lemmas.Reopen.dirSlotsOf v0 dk 0xFFFFFFFC rc) e.name
+        (e.entryBlock, e.entryOffset, slice (dk.get e.entryBlock) e.entryOffset 32)) ∧
+    ∀ (t0 : Mgr) (name : List Nat), MgrOK t0 → t0.dev.disk = dk → t0.vols = [] → t0.dirs = [] → t0.files = [] →
+      0 < t0.maxVols → 0 < t0.maxDirs → 0 < t0.maxFiles → t0.nextId + 2 < 4294967296 →
+      Sfn.createFromStr name = .ok e.name →
+      ∃ t1 t2 t3, openRawVolume idx t0 = (.ok t0.nextId, t1) ∧
+        openRootDir t0.nextId t1 = (.ok (t0.nextId + 1), t2) ∧
+        openFileInDir (t0.nextId + 1) name .ReadOnly t2 = (.ok (t0.nextId + 2), t3) ∧
+        t3.dev.disk = dk ∧ t3.dev.wlog = t0.dev.wlog ∧
+        fileLength (t0.nextId + 2) t3 = (.ok e.size, t3) ∧
+        ∀ n, ∃ t4, read (t0.nextId + 2) n t3 = (.ok ((fileContent v0 s1.dev.disk cs e.size).take n), t4) ∧
+          t4.dev.disk = dk ∧ t4.dev.wlog = t0.dev.wlog := by
+  have hK : Kept v0 e cs 0 s1 gh1 :=
+    ⟨hI.inv, hI.mirror, h0, hF, ⟨Lemmas.VolTree.zero_mem_dirIds _, hobj, by rw [Lemmas.Survive.slotOf_isDir _ e hst]; exact hplain, hq⟩⟩
+  have hfc := fsCoveredRun_of_coveredAllRun v0 s1 ops hc
+  obtain ⟨j, op, k, hj, rfl⟩ := (histCrash_iff s1 ops _).1 hk
+  obtain ⟨ghj, L, hKj, hwf, hall, hnn, hav⟩ := Lemmas.Survive.kept_history hst ops s1 gh1 hK hfc hu j op hj
+  obtain ⟨⟨ghk, hC⟩, _⟩ := C10Inv.history_crash_invariant v0 ops s1 gh1 hI h0 hc j op hj k
+  obtain ⟨w, hmw, hsw⟩ := C10Inv.history_crash_mounts_from_start v0 ops s1 gh1 hI h0 hc j op hj k idx vm hm hsg
+  obtain ⟨r1, r2, _, r4, r5, r6⟩ := Lemmas.Survive.kept_crash hKj hst hwf hall hnn hav k hC idx w hmw hsw
+  -- the contents of the state the call is issued in are those of `s1`
+  obtain ⟨Ls, hR, hnnAll⟩ := notNamed_of_syntactic v0 e cs 0 s1 gh1 hK hst ops hc hu
+  obtain ⟨_, _, _, _, hreg, hal, _, hin⟩ := hK.facts hst
+  have hg : WFGeom v0 := h0.symm.wfGeom hI.inv.med.geom
+  obtain ⟨_, hcj⟩ := Lemmas.Survive.flushed_at_boundary hg hR hI.inv.med.blocksOK e cs hF hin hreg hal hnnAll j hKj.inv.med.blocksOK
+  refine ⟨⟨r1, r2.slot, r2.chain, fun n => (r4 n).trans (hcj n)⟩, ?_, ?_⟩
+  · refine ⟨Lemmas.VolMed.dirChain v0 ghk.G 0, ?_, ?_, ?_⟩
+    · intro h16
+      unfold Lemmas.VolMed.dirChain
+      rw [if_pos ⟨rfl, h16⟩]
+    · intro h32
+      have hf0 : ¬ Lemmas.VolMed.isFixedRoot v0 0 := fun h => by have := h.2; rw [h32] at this; cases this
+      obtain ⟨_, hCore⟩ := Lemmas.VolCrash.crashInv_iff.1 hC
+      obtain ⟨m2, d2⟩ := Lemmas.VolCrash.Fsck.dirChain_spec hCore (Lemmas.VolTree.zero_mem_dirIds _) hf0
+      have c2 := Lemmas.VolCrash.Fsck.lchain hCore m2
+      rw [Lemmas.VolTree.headD_of_head? d2] at c2
+      unfold Lemmas.VolMed.dirChain
+      rw [if_neg hf0]
+      have hd0 : Lemmas.VolMed.dirHead v0 0 = v0.firstRootDirCluster := by unfold Lemmas.VolMed.dirHead; rw [if_pos rfl]
+      rw [hd0] at c2 ⊢
+      exact c2
+    · rw [Lemmas.Survive.slotOf_of_flushed r2]; exact r5
+  · intro t0 name a1 a2 a3 a4 a5 a6 a7 a8 a9 a10
+    obtain ⟨t1, t2, t3, g1, g2, g3, g4, g5, g6, g7⟩ := r6 t0 name a1 a2 a3 a4 a5 a6 a7 a8 a9 a10
+    refine ⟨t1, t2, t3, g1, g2, g3, g4, g5, g6, fun n => ?_⟩
+    obtain ⟨t4, hr, hd4, hw4⟩ := g7 n
+    refine ⟨t4, ?_, hd4, hw4⟩
+    rw [← hcj]; exact hr
+
+/-- **`closed_file_survives`** — the property from the call itself, with the purely syntactic criterion.
+
+`s` satisfies `VolInvC`; `hd` is the handle of the open file `f`, which was written to and sits in the ROOT directory;
+the medium of `s` mounts as partition `idx` with the geometry of `v0`.  Then `close_file hd` answers `Ok`, and for EVERY
+covered history `ops` after it whose list of calls contains no `open_file_in_dir` in a mode other than `ReadOnly` and no
+`delete_file_in_dir` of a spelling of the file's name (`NeverNames`), at EVERY crash point `dk` — the medium after any
+number of the block writes of any call of `ops` —: the slot holds the flushed entry, the chain is the file's chain,
+and ANY fresh manager on `dk` mounts, opens the root directory, opens the file by any spelling of its name, is told the
+length `f.entry.size` and reads exactly the contents the file had when it was closed
+(`fileContent v0 s.dev.disk cs f.entry.size`, `cs` the file's chain) — writing nothing. -/
+theorem closed_file_survives (v0 : FatVolume) (s : Mgr) (gh : Ghost) (hI : VolInvC s gh) (h0 : SameGeom v0 gh.vol)
+    (hd i : Nat) (f : FileInfo) (hidx : s.files.findIdx? (·.rawFile = hd) = some i) (hf : s.files[i]? = some f)
+    (hdirty : f.dirty = true)
+    (hroot : ∃ o, o ∈ objects 0 (dirSlots gh.vol s.dev.disk gh.G 0) ∧ spos o = fkey f)
+    (ops : List Op) (hc : CoveredAllRun v0 s (.closeFile hd :: ops)) (hn : NeverNames f.entry.name ops)
+    (idx : Nat) (vm : FatVolume) (hm : mountPure (s.dev.disk.get 0) idx s.dev.disk.get = .ok vm) (hsg : SameGeom vm v0) :
+    (step s (.closeFile hd)).2.result = .ok .unit ∧
+    ∀ dk, HistCrash (step s (.closeFile hd)).1 ops dk →
+      (BlocksOK dk ∧ slice (dk.get f.entry.entryBlock) f.entry.entryOffset 32 = f.entry.serialize v0.fatType ∧
+        ((f.entry.cluster < 2 ∧ chainOf gh.G f.entry.cluster = [] ∧ f.entry.size = 0) ∨
+          Chain v0 dk f.entry.cluster (chainOf gh.G f.entry.cluster)) ∧
+        ∀ n, fileContent v0 dk (chainOf gh.G f.entry.cluster) n = fileContent v0 s.dev.disk (chainOf gh.G f.entry.cluster) n) ∧
+      ∀ (t0 : Mgr) (name : List Nat), MgrOK t0 → t0.dev.disk = dk → t0.vols = [] → t0.dirs = [] → t0.files = [] →
+        0 < t0.maxVols → 0 < t0.maxDirs → 0 < t0.maxFiles → t0.nextId + 2 < 4294967296 →
+        Sfn.createFromStr name = .ok f.entry.name →
+        ∃ t1 t2 t3, openRawVolume idx t0 = (.ok t0.nextId, t1) ∧
+          openRootDir t0.nextId t1 = (.ok (t0.nextId + 1), t2) ∧
+          openFileInDir (t0.nextId + 1) name .ReadOnly t2 = (.ok (t0.nextId + 2), t3) ∧
+          t3.dev.disk = dk ∧ t3.dev.wlog = t0.dev.wlog ∧
+          fileLength (t0.nextId + 2) t3 = (.ok f.entry.size, t3) ∧
+          ∀ n, ∃ t4, read (t0.nextId + 2) n t3 =
+              (.ok ((fileContent v0 s.dev.disk (chainOf gh.G f.entry.cluster) f.entry.size).take n), t4) ∧
+            t4.dev.disk = dk ∧ t4.dev.wlog = t0.dev.wlog := by
+  have hM := Lemmas.VolMed.medX_of_med hI.inv.med
+  have hfm : f ∈ s.files := List.mem_of_getElem? hf
+  obtain ⟨hres, h, gh1, ⟨o, ho, hpo⟩, hh, hK1, hnone⟩ := Lemmas.Survive.close_kept hI.inv hI.mirror h0 hidx hf hdirty
+  obtain ⟨o0, ho0, hpo0⟩ := hroot
+  obtain ⟨rfl, _⟩ := Lemmas.AbsFs.slot_unique hM hh (Lemmas.VolTree.zero_mem_dirIds _) (Lemmas.VolMed.mem_of_mem_objects ho)
+    (Lemmas.VolMed.mem_of_mem_objects ho0) (hpo.trans hpo0.symm)
+  refine ⟨hres, ?_⟩
+  obtain ⟨hst, _, _, _, hplain, _⟩ := Lemmas.Survive.file_entry_facts hI.inv hfm
+  have hst0 : Lemmas.Reopen.Storable v0.fatType f.entry := by rw [← h0.fatType]; exact hst
+  -- `VolInvC` after the close, for the ghost of `Kept`
+  obtain ⟨gh1', hIC1, hg1'⟩ := C10Inv.api_step_invariantC v0 s (.closeFile hd) gh hI h0 hc.1
+  have hIC : VolInvC (step s (.closeFile hd)).1 gh1 := by
+    refine ⟨hK1.inv, hK1.mirror, ?_⟩
+    have e1 : gh1.vol.fatType = gh1'.vol.fatType := hK1.geom.fatType.trans hg1'.fatType.symm
+    rw [e1]; exact hIC1.raw
+  -- the criterion
+  have hu := untouched_of_never_opened v0 f.entry _ 0 _ gh1 hK1 hst0 ops hc.2
+    (fun g hg hk => absurd hk (hnone g hg)) (never_opened_of_never_names 0 f.entry.name ops _ hn)
+  -- the medium after the close mounts
+  obtain ⟨w1, hw1, hsw1⟩ := C10Inv.history_mounts v0 [.closeFile hd] s gh hI h0 ⟨hc.1, trivial⟩ idx vm hm hsg
+  have hw1' : mountPure ((step s (.closeFile hd)).1.dev.disk.get 0) idx (step s (.closeFile hd)).1.dev.disk.get = .ok w1 := hw1
+  -- the contents the close leaves are those before it
+  obtain ⟨_, _, hcont⟩ := Lemmas.Survive.close_step_flushed hI.inv hidx hf hdirty
+  have hcont0 : ∀ n, fileContent v0 (step s (.closeFile hd)).1.dev.disk (chainOf gh.G f.entry.cluster) n =
+      fileContent v0 s.dev.disk (chainOf gh.G f.entry.cluster) n := by
+    intro n
+    rw [← Lemmas.WriteRefines.sameGeom_fileContent h0, ← Lemmas.WriteRefines.sameGeom_fileContent h0]
+    exact hcont n
+  intro dk hk
+  obtain ⟨⟨r1, r2, r3, r4⟩, _, r6⟩ := flushed_file_survives v0 _ gh1 hIC hK1.geom ops hc.2 f.entry _ hK1.flushed hst0 hK1.obj.mem
+    hplain hK1.obj.quiet hu idx w1 hw1' hsw1.symm dk hk
+  refine ⟨⟨r1, r2, r3, fun n => (r4 n).trans (hcont0 n)⟩, ?_⟩
+  intro t0 name a1 a2 a3 a4 a5 a6 a7 a8 a9 a10
+  obtain ⟨t1, t2, t3, g1, g2, g3, g4, g5, g6, g7⟩ := r6 t0 name a1 a2 a3 a4 a5 a6 a7 a8 a9 a10
+  refine ⟨t1, t2, t3, g1, g2, g3, g4, g5, g6, fun n => ?_⟩
+  obtain ⟨t4, hr, hd4, hw4⟩ := g7 n
+  refine ⟨t4, ?_, hd4, hw4⟩
+  rw [← hcont0]; exact hr
+
+/-- **`spec_reader_survives_syntactic`**: `spec_reader_survives` under the syntactic criterion — from a `Kept` state
+(file of any directory), along a covered history that never targets the file, at EVERY crash point the independent
+reader `Spec.Fs` sees the flushed file (slot fields, chain walk, file bytes); `ProperEnds`: no FAT32 entry of the
+file's chain is the reserved value 1. -/
+theorem spec_reader_survives_syntactic (v0 : FatVolume) (e : DirEntry) (cs : List Nat) (h : Nat) (s1 : Mgr) (gh1 : Ghost)
+    (hK : Kept v0 e cs h s1 gh1) (hst : Lemmas.Reopen.Storable v0.fatType e) (ops : List Op) (hc : CoveredAllRun v0 s1 ops)
+    (hu : Untouched h e.name (e.entryBlock, e.entryOffset) s1 ops)
+    (g : Fs.Geom) (hgm : C02Reopen.GeomOf v0 g) (hp : C02Reopen.ProperEnds v0 s1.dev.disk cs)
+    (dk : Disk) (hk : HistCrash s1 ops dk) (sl : Fs.Slot) (hsl : sl.bytes = slice (dk.get e.entryBlock) e.entryOffset 32) :
+    Fs.nameOf sl = e.name ∧ Fs.attrOf sl = e.attributes ∧ Fs.clusterOf g sl = e.cluster ∧ Fs.sizeOf sl = e.size ∧
+    (cs ≠ [] → Fs.chain g dk (Fs.clusterOf g sl) = .ok cs) ∧
+    Fs.fileBytes g dk cs (Fs.sizeOf sl) = fileContent v0 s1.dev.disk cs e.size := by
+  obtain ⟨Ls, hR, hnn⟩ := notNamed_of_syntactic v0 e cs h s1 gh1 hK hst ops hc hu
+  obtain ⟨_, _, _, _, hreg, hal, _, hin⟩ := hK.facts hst
+  have hg : WFGeom v0 := hK.geom.symm.wfGeom hK.inv.med.geom
+  obtain ⟨hbk, hFk, hraw, hfc⟩ := Lemmas.Survive.flushed_at_crash hg hR hK.inv.med.blocksOK e cs hK.flushed hin hreg hal hnn dk hk
+  have := Lemmas.Survive.spec_reader_on v0 hg g hgm dk hbk e cs hst hFk hin
+    (fun x hx h32 => by rw [hraw x hx]; exact hp x hx h32) sl hsl
+  rw [hfc] at this
+  exact this
+
 /-! ### Non-vacuity -/
 
 namespace Example
@@ -341,6 +671,84 @@ example : ∃ Ls, RunLicensed vol s1 after Ls ∧ (∀ L, L ∈ Ls → NotNamed 
     refine ⟨t1, t2, t3, g1, g2, g3, g6, fun n => ?_⟩
     obtain ⟨t4, hr, _, _⟩ := g7 n
     exact ⟨t4, by rw [← hB]; exact hr⟩
+
+/-- The state of the example satisfies `VolInvC`: the on-disk slot of the open file names no cluster yet. -/
+theorem invCA : VolInvC mgr ghA := by
+  refine ⟨invA, mirrorA _, ?_⟩
+  intro f hf
+  have hf' : f = file := List.mem_singleton.1 hf
+  subst hf'
+  left
+  decide +kernel
+
+/-- The open file sits in the root directory (the ghost has no other directory). -/
+theorem rootA : ∃ o, o ∈ objects 0 (dirSlots ghA.vol mgr.dev.disk ghA.G 0) ∧ spos o = fkey file := by
+  obtain ⟨h, hh, o, ho, h1, h2, _⟩ := invA.med.tree.fileSlots file List.mem_cons_self
+  have h0 : h = 0 := by
+    have : h ∈ [0] := hh
+    exact List.mem_singleton.1 this
+  subst h0
+  exact ⟨o, ho, Prod.ext h1 h2⟩
+
+/-- A history after the close that writes a lot — it creates, fills and deletes another file, makes a directory, and
+reads `A.TXT` again through a read-only handle — but contains no `open_file_in_dir` of "A.TXT" in a writing mode and
+no `delete_file_in_dir` of it. -/
+def payload : Bytes := List.replicate 2000 0x55
+
+def busy : List Op :=
+  [.openFile 5 [0x42, 0x2E, 0x54, 0x58, 0x54] .ReadWriteCreate, .write 8 payload, .closeFile 8,
+   .mkdir 5 [0x44], .openFile 5 nameStr .ReadOnly, .read 9 100, .closeFile 9, .delete 5 [0x42, 0x2E, 0x54, 0x58, 0x54],
+   .closeVolume 3]
+
+theorem busy_names : NeverNames file.entry.name busy := by
+  refine ⟨.inr (by decide), ⟨.inl rfl, by decide, trivial⟩⟩
+
+theorem busy_covered : CoveredAllRun vol mgr (.closeFile 7 :: busy) :=
+  (C03All.coveredAllRun_iff_remountRun vol mgr _).2 (C03All.remountRun_of_no_openVolume vol mgr _ (by
+    intro op hop i e
+    subst e
+    simp [busy] at hop))
+
+/-- **The property on the example, full form**: `A.TXT` (600 bytes `B`) is closed; then, whatever `busy` does, at EVERY
+crash point of it — after any number of its block writes — a fresh manager mounts partition 0, opens the root directory,
+opens "A.TXT", is told 600 bytes and reads `B`. -/
+example : (step mgr (.closeFile 7)).2.result = .ok .unit ∧
+    ∀ dk, HistCrash (step mgr (.closeFile 7)).1 busy dk →
+      ∀ (t0 : Mgr), MgrOK t0 → t0.dev.disk = dk → t0.vols = [] → t0.dirs = [] → t0.files = [] →
+        0 < t0.maxVols → 0 < t0.maxDirs → 0 < t0.maxFiles → t0.nextId + 2 < 4294967296 →
+        ∃ t1 t2 t3, openRawVolume 0 t0 = (.ok t0.nextId, t1) ∧ openRootDir t0.nextId t1 = (.ok (t0.nextId + 1), t2) ∧
+          openFileInDir (t0.nextId + 1) nameStr .ReadOnly t2 = (.ok (t0.nextId + 2), t3) ∧
+          fileLength (t0.nextId + 2) t3 = (.ok 600, t3) ∧
+          ∀ n, ∃ t4, read (t0.nextId + 2) n t3 = (.ok (B.take n), t4) := by
+  obtain ⟨hres, hall⟩ := closed_file_survives vol mgr ghA invCA (SameGeom.refl _) 7 0 file handle_found rfl rfl rootA busy
+    busy_covered busy_names 0 vol0 mount_ok ⟨_, _, (sameGeom : vol = _)⟩
+  refine ⟨hres, fun dk hk t0 a1 a2 a3 a4 a5 a6 a7 a8 a9 => ?_⟩
+  obtain ⟨_, hrd⟩ := hall dk hk
+  obtain ⟨t1, t2, t3, g1, g2, g3, _, _, g6, g7⟩ := hrd t0 nameStr a1 a2 a3 a4 a5 a6 a7 a8 a9 (by decide)
+  refine ⟨t1, t2, t3, g1, g2, g3, g6, fun n => ?_⟩
+  obtain ⟨t4, hr, _, _⟩ := g7 n
+  refine ⟨t4, ?_⟩
+  have hB : fileContent vol mgr.dev.disk (chainOf ghA.G file.entry.cluster) file.entry.size = B := content_B
+  rw [← hB]; exact hr
+
+/-- The criterion is needed: a history that truncates the file is excluded by it — `NeverNames` fails. -/
+example : ¬ NeverNames file.entry.name [.openFile 5 nameStr .ReadWriteTruncate] := by
+  intro h
+  rcases h.1 with e | e
+  · cases e
+  · exact e (by decide)
+
+/-- The excluded point, evaluated: re-opening `A.TXT` with `ReadWriteTruncate` after the close (three block writes)
+leaves an entry of size 0 in the slot — the file IS modified, the criterion is needed (and says so: the call targets the
+file). -/
+example : (Lemmas.Listing.decode .fat16
+      (18, 0, slice (((step s1 (.openFile 5 nameStr .ReadWriteTruncate)).1.dev.disk).get 18) 0 32)).size = 0 ∧
+    (step s1 (.openFile 5 nameStr .ReadWriteTruncate)).2.writes.length = 3 := by
+  rw [s1_def]; decide +kernel
+
+example (s : Mgr) (hd : ∃ dir, dir ∈ s.dirs ∧ dir.rawDirectory = 5 ∧ dirIdOf dir.cluster = 0) :
+    Targets s 0 file.entry.name (18, 0) (.openFile 5 nameStr .ReadWriteTruncate) :=
+  ⟨.inl rfl, by decide, hd⟩
 
 /-- A call that does write — creating `B.TXT` in the same directory: at both crash points of its single block write
 the slot of `A.TXT` holds the flushed entry (evaluated). -/
